@@ -162,7 +162,7 @@ def loop_checks(chk, prog, fn, reader, only_tail=False):
     if only_tail:
         chk.floor("type-31 iteration shapes", n_next, 10)
         return
-    want_name = call("alloc::string::ToString::to_string", call("alloc::string::String::from_utf8_lossy", fld(okv(bid), "data_name")))
+    want_name = call("alloc::string::String::from_utf8_lossy", fld(okv(bid), "data_name"))
     if name is not None:
         okn = name[0] == "call" and name[2] and name[2][0][0] == "call" and name[2][0][1].endswith("from_utf8_lossy") and name[2][0][2] == (fld(okv(bid), "data_name"),)
         chk.ob("R-WIRE", FN, okn, "the dispatch compares the block id's own three name bytes", w, key="name-source")
